@@ -13,11 +13,11 @@ EXTENDS Integers, Sequences, FiniteSets, TLC, Json, EioProps
 CONSTANT TraceFile
 Trace == ndJsonDeserialize(TraceFile)
 
-VARIABLES l, scn, cfg, S, Rq, Cn, Pre, grid, viol, done
-vars == <<l, scn, cfg, S, Rq, Cn, Pre, grid, viol, done>>
+VARIABLES l, scn, cfg, S, Rq, Cn, Pre, grid, lastH, viol, done
+vars == <<l, scn, cfg, S, Rq, Cn, Pre, grid, lastH, viol, done>>
 
 NoCfg == [pi |-> 25000000, pt |-> 20000000, ut |-> 10000000, maxbuf |-> 1000000]
-Init == /\ l = 1 /\ scn = "" /\ cfg = NoCfg /\ S = <<>> /\ Rq = <<>> /\ Cn = <<>> /\ Pre = <<>> /\ grid = FALSE /\ viol = <<>> /\ done = FALSE
+Init == /\ l = 1 /\ scn = "" /\ cfg = NoCfg /\ S = <<>> /\ Rq = <<>> /\ Cn = <<>> /\ Pre = <<>> /\ grid = FALSE /\ lastH = "" /\ viol = <<>> /\ done = FALSE
 
 V(prop, clause, sid, detail) == [scn |-> scn, line |-> l, prop |-> prop, clause |-> clause, sid |-> sid, detail |-> detail]
 Put(f, k, v) == [x \in DOMAIN f \cup {k} |-> IF x = k THEN v ELSE f[x]]
@@ -104,6 +104,7 @@ Step ==
   /\ l <= Len(Trace) /\ l' = l + 1 /\ done' = FALSE
   /\ scn' = IF e.e = "reset" THEN e.scn ELSE scn
   /\ grid' = IF e.e = "reset" THEN FALSE ELSE grid \/ onGrid
+  /\ lastH' = IF e.e = "reset" THEN "" ELSE IF e.e = "hostile" THEN e.class ELSE lastH
   /\ Pre' = IF e.e = "reset" THEN <<>>
             ELSE IF e.e = "gate.park" /\ e.point = "handshake.constructed" THEN Put(Pre, e.id, t) ELSE Pre
   /\ CASE e.e = "reset" ->
@@ -201,8 +202,10 @@ Step ==
             LET pos == IF \E i \in 1..Len(s.sub) : s.sub[i] = e.id THEN CHOOSE i \in 1..Len(s.sub) : s.sub[i] = e.id ELSE 0
                 last == IF s.del = <<>> THEN 0
                         ELSE LET d == s.del[Len(s.del)] IN IF \E i \in 1..Len(s.sub) : s.sub[i] = d THEN CHOOSE i \in 1..Len(s.sub) : s.sub[i] = d ELSE 0
-            IN /\ S' = Upd([s EXCEPT !.del = Append(s.del, e.id)])
-               /\ viol' = viol \o tv \o SockCommon(e, s)
+            IN /\ S' = Upd(IF e.id = 0 THEN s ELSE [s EXCEPT !.del = Append(s.del, e.id)])
+               /\ viol' = IF e.id = 0 THEN viol \o tv \o SockCommon(e, s)     \* not one of the harness's numbered messages (hostile input that parses as a message)
+                             \o (IF e.len > cfg.maxbuf THEN <<V("C10", "oversized_message_delivered", e.sid, [len |-> e.len, limit |-> cfg.maxbuf])>> ELSE <<>>)
+                          ELSE viol \o tv \o SockCommon(e, s)
                     \o (IF e.id \notin s.may THEN <<V("C02", "delivered_message_never_eligible", e.sid, [id |-> e.id, v3lossy |-> s.v3lossy])>> ELSE <<>>)
                     \o (IF e.id \in SeqSet(s.del) THEN <<V("C02", "message_delivered_twice", e.sid, [id |-> e.id, v3lossy |-> s.v3lossy])>> ELSE <<>>)
                     \o (IF pos # 0 /\ pos < last THEN <<V("C02", "messages_delivered_out_of_order", e.sid, [id |-> e.id, v3lossy |-> s.v3lossy])>> ELSE <<>>)
@@ -396,12 +399,26 @@ Step ==
             /\ viol' = viol \o tv
                  \o (IF e.what = "drained" /\ ~s.closed /\ s.nrcv < Len(s.sent)
                      THEN <<V("C01", "message_never_received", e.sid, [received |-> s.nrcv, sent |-> Len(s.sent)])>> ELSE <<>>)
-                 \o (IF e.what = "delivered" /\ ~s.closed /\ SeqSet(s.sub) # SeqSet(s.del)
+                 \o (IF e.what = "delivered" /\ ~s.closed /\ ~(SeqSet(s.sub) \subseteq SeqSet(s.del))
                      THEN <<V("C02", "submitted_message_not_delivered", e.sid, [missing |-> SeqSet(s.sub) \ SeqSet(s.del), v3lossy |-> s.v3lossy])>> ELSE <<>>)
                  \o (IF e.what = "open" /\ s.closed THEN <<V("C03", "session_closed_unexpectedly", e.sid, "")>> ELSE <<>>)
                  \o (IF e.what = "closed" /\ ~s.closed THEN <<V("C12", "session_not_closed", e.sid, "")>> ELSE <<>>)
                  \o (IF e.what = "upgraded" /\ s.nupg = 0 THEN <<V("C08", "conformant_upgrade_did_not_complete", e.sid, "")>> ELSE <<>>)
                  \o (IF e.what = "notupgrading" /\ ~s.closed /\ e.upg THEN <<V("C08", "still_marked_upgrading_after_failed_attempt", e.sid, "")>> ELSE <<>>)
+            /\ UNCHANGED <<cfg, Rq, Cn>>
+       [] e.e = "c10.body" ->
+            \* an oversized body is refused with 413 and not consumed beyond the limit plus one read buffer (64 KiB)
+            /\ S' = SS
+            /\ viol' = viol \o tv
+                 \o (IF e.size > e.limit /\ e.status # 413 THEN <<V("C10", "oversized_body_not_refused_with_413", "", [size |-> e.size, limit |-> e.limit, status |-> e.status])>> ELSE <<>>)
+                 \o (IF e.size <= e.limit /\ e.status # 200 THEN <<V("C10", "body_within_limit_refused", "", [size |-> e.size, limit |-> e.limit, status |-> e.status])>> ELSE <<>>)
+                 \o (IF e.consumed > e.limit + 65536 THEN <<V("C10", "oversized_body_consumed", "", [consumed |-> e.consumed, limit |-> e.limit])>> ELSE <<>>)
+            /\ UNCHANGED <<cfg, Rq, Cn>>
+       [] e.e = "hostile.done" ->
+            \* work in proportion to the bytes received: a generous fixed budget plus a per-kilobyte allowance of CPU time
+            /\ S' = SS
+            /\ viol' = viol \o tv \o (IF e.cpu_ms > 1500 + (e.bytes \div 1000) * 20
+                                       THEN <<V("C09", "work_out_of_proportion", e.sid, [class |-> e.class, bytes |-> e.bytes, cpu_ms |-> e.cpu_ms])>> ELSE <<>>)
             /\ UNCHANGED <<cfg, Rq, Cn>>
        [] e.e = "finish" ->
             LET ivs == SelectSeq(e.left, LAMBDA g : (g = "interval"))
@@ -414,14 +431,16 @@ Step ==
                /\ UNCHANGED <<cfg, Rq, Cn>>
        [] e.e = "bubble.panic" /\ e.leak -> UNCHANGED <<cfg, S, Rq, Cn, viol>>     \* reported by the finish event (goroutines left)
        [] e.e \in {"handler.panic", "bubble.panic", "wedged", "process.died"} ->
-            /\ viol' = Append(viol, V(IF e.e = "wedged" THEN "C18" ELSE "C09", e.e, "", IF "msg" \in DOMAIN e THEN e.msg ELSE ""))
+            \* a wedge right after a hostile input is that input's doing (C09), otherwise it is a listener/lock deadlock (C18)
+            /\ viol' = Append(viol, V(IF e.e = "wedged" /\ lastH = "" THEN "C18" ELSE "C09", e.e, "",
+                                      [msg |-> IF "msg" \in DOMAIN e THEN e.msg ELSE "", class |-> lastH]))
             /\ UNCHANGED <<cfg, S, Rq, Cn>>
        [] OTHER -> /\ S' = SS /\ viol' = viol \o tv /\ UNCHANGED <<cfg, Rq, Cn>>
 
 Finish == /\ l = Len(Trace) + 1 /\ ~done /\ done' = TRUE
           /\ PrintT("VIOLS " \o ToJson(viol))
           /\ PrintT("LINES " \o ToString(Len(Trace)))
-          /\ UNCHANGED <<l, scn, cfg, S, Rq, Cn, Pre, grid, viol>>
+          /\ UNCHANGED <<l, scn, cfg, S, Rq, Cn, Pre, grid, lastH, viol>>
 
 Next == Step \/ Finish
 Spec == Init /\ [][Next]_vars
